@@ -161,6 +161,11 @@ def check(ctx):
     from ..pymodel import package as _pkg
     ctx.absorb(lambda sub: c09._r4_defs(sub, _pkg(sub.tree)), "R8", only=lambda o: o.key.startswith("naunet_macros.h.j2:IDX_ definitions"))
     ctx.floor("R8", "macro header numbering", len([o for o in ctx.obs if o.rule == "R8"]), 1)
+    # the arrays are assembled row by row (CSR): the matrix handed to the linear solver must be declared in that same storage
+    # format, or the solver works with the transpose (shared with C03.R4)
+    from . import c03
+    ctx.absorb(c03._r4, "R9", only=lambda o: "SUNSparseMatrix" in o.key or "cuSparse" in o.key)
+    ctx.floor("R9", "sparse matrix constructions", len([o for o in ctx.obs if o.rule == "R9"]), 2)
 
 
 
@@ -426,6 +431,7 @@ def _r5(ctx, m):
 
 T = FILE
 MUTANTS = [
+    {"name": "sparse-matrix-declared-csc", "file": "naunet/templates/cvode/src/naunet.cpp.j2", "old": "SUNSparseMatrix(NEQUATIONS, NEQUATIONS, NNZ, CSR_MAT, cv_sunctx_)", "new": "SUNSparseMatrix(NEQUATIONS, NEQUATIONS, NNZ, CSC_MAT, cv_sunctx_)", "count": 2, "rules": ["R9"]},
     {"name": "macros-gas-first", "file": "naunet/templates/base/cpp/include/naunet_macros.h.j2", "old": "{% for spec in network.species %}\n#define IDX_{{ spec.alias }} {{ loop.index0 }}", "new": "{% for spec in network.species | sort(attribute='is_surface') %}\n#define IDX_{{ spec.alias }} {{ loop.index0 }}", "rules": ["R8"]},
     {"name": "cusparse-kernel-drops-system-offset", "file": "naunet/templates/cvode/src/naunet_jac.cpp.j2", "old": "data[jistart + ", "new": "data[", "rules": ["R7"]},
     {"name": "odeint-jac-clips-abundances", "file": "naunet/templates/odeint/src/naunet_ode.cpp.j2", "old": "        y[i] = abund[i];\n    }\n\n    {% set components = network.reactions + network.grains + network.heating + network.cooling -%}\n    {% for key, _ in components | collect_variable_items(\"params\") -%}", "new": "        y[i] = fmax(abund[i], 0.0);\n    }\n\n    {% set components = network.reactions + network.grains + network.heating + network.cooling -%}\n    {% for key, _ in components | collect_variable_items(\"params\") -%}", "count": 2, "rules": ["R7"]},
